@@ -99,9 +99,12 @@ Proof.
 Qed.
 Print Assumptions generated_interpolator_fields.
 
-(* only InterExtra (and Constant, additively) override the generic to_dict / from_dict of JSONSerializableClass *)
+(* only InterExtra - and, once it stores its coefficients (shape checked by the translator), Polynominal -
+   override the generic to_dict of JSONSerializableClass *)
 Theorem generated_class_overrides :
-  map (fun x => fst (fst x)) (filter (fun x => snd (fst x)) fluid_classes) = ["FluidPropertyInterExtra"]
+  (let ov := map (fun x => fst (fst x)) (filter (fun x => snd (fst x)) fluid_classes) in
+   existsb (String.eqb "FluidPropertyInterExtra") ov
+   && forallb (fun c => existsb (String.eqb c) ["FluidPropertyInterExtra"; "FluidPropertyPolynominal"]) ov) = true
   /\ forallb (fun c => existsb (fun x => String.eqb (fst (fst x)) (class_name c)) fluid_classes)
              [CConst; CLinear; CInterExtra; CPoly; CSuth] = true
   /\ existsb (String.eqb "pandapipesNet") registry_names = true
